@@ -71,7 +71,11 @@ class Sim:
             def do_UnconfirmedCOVNotificationRequest(self, apdu):
                 outer.notifs.append((self.cli_no, 0, apdu))
 
+        import bacpypes.task as _task
+        _task.TaskManager._singleton_instance = None      # VClock must get a *fresh* manager (it is a singleton class)
+        _task._Trigger = None                             # no wake-up pipe per manager (3 descriptors each, never closed)
         self.clock = VClock(T0)
+        assert _task._task_manager is self.clock.tm and not self.clock.tm.tasks
         self.lan = self.clock.network()
         self.dev = Stack(self.clock, self.lan, 1, services=[ChangeOfValueServices, ReadWritePropertyServices])
         self.clients = {}
